@@ -1050,7 +1050,7 @@ func (f *Frame) execUnOp(v *ssa.UnOp, st *State) {
 		l := f.getLoc(v.X)
 		f.nilCheck(l, st)
 		t := f.defVal(v, f.load(l, st))
-		f.assumeTyped(v.Type(), t, st)
+		f.assumeTyped(v.Type(), t, f.boundState(l, st))
 		if g, ok := v.X.(*ssa.Global); ok {
 			vc.applyGlobalSpecs(f, g, t, st)
 		}
@@ -1072,6 +1072,34 @@ func (f *Frame) execUnOp(v *ssa.UnOp, st *State) {
 	default:
 		unsupported("unop %s", v.Op)
 	}
+}
+
+// boundState returns the state whose allocation counter bounds pointers read through l:
+// if the heap holding l has not changed since the verified function was entered, the value
+// read was already there at entry, so it is older than everything allocated since.
+func (f *Frame) boundState(l *Loc, st *State) *State {
+	root := f.rootFrame()
+	if root.entry == nil {
+		return st
+	}
+	var h string
+	switch l.kind {
+	case locObj:
+		if at, ok := l.rootT.Underlying().(*types.Array); ok {
+			h = f.vc.sorts.elemHeap(at.Elem())
+		} else {
+			h = f.vc.sorts.objHeap(l.rootT)
+		}
+	case locElem:
+		h = f.vc.sorts.elemHeap(l.rootT)
+	default:
+		return st
+	}
+	f.vc.heapVar(h)
+	if f.vc.get(st, h) == f.vc.get(root.entry, h) {
+		return root.entry
+	}
+	return st
 }
 
 func (f *Frame) abstractInstr(v ssa.Value, st *State, what string) {
